@@ -256,3 +256,18 @@ PROPS = {
 }
 
 NOT_APPLICABLE = {}
+
+# Spec coverage BEYOND the listed properties (bin/check X01 ...).  Same machinery, but never part of MANIFEST.json: a
+# deviation here is reported as "DEVIATION extra=..." and is not a verdict about any of C01-C20.
+EXTRAS = {
+    "X01": {
+        "title": "naming layer: name and display string of every time unit are composed from its fields; name tables of 31 cycles",
+        "mc": {},
+        "rule": "the complete name table of 31 cycles; name and display string of 25 kinds of values on 1,500 (quick) / 40,000 (thorough) seeded days plus festival and day-series dates",
+        "exhaustive": {"quick": False, "thorough": False},
+        "assumptions": ["the pillars / indices a value reports are right (C07, C08, C09 decide that); only the composition of strings is checked here"],
+        "level_text": "trace validation of names against Names.tla (tables of the classical lists, one composition operator per type)",
+        "level_note": "not a listed property; the format rules are transcribed from observed behaviour, the name tables from the classical lists",
+        "technique": "trace validation against Names.tla",
+    },
+}
